@@ -3,7 +3,8 @@ use serde_json::Value;
 
 pub type AreaFn = fn(&Value) -> Vec<Value>;
 
-mod co;
+pub mod co;
+pub mod sched;
 mod ows;
 mod time;
 
@@ -12,6 +13,7 @@ pub fn lookup(name: &str) -> Option<AreaFn> {
         "time" => Some(time::run),
         "ows" => Some(ows::run),
         "co" => Some(co::run),
+        "sched" => Some(sched::run),
         _ => None,
     }
 }
